@@ -525,6 +525,11 @@ class SMTP(basic.LineOnlyReceiver, policies.TimeoutMixin):
                 message.connectionLost()
             self.mode = COMMAND
             del self.__messages
+            self.sendCode(500, b"Line too long")
+            # What follows is the rest of the message, not commands, and it
+            # cannot be told apart from commands any more: stop reading.
+            self.transport.loseConnection()
+            return
         self.sendCode(500, b"Line too long")
 
     def do_UNKNOWN(self, rest):
